@@ -1,5 +1,5 @@
 /* vgen.h — input-shape grammar shared by the conformance drivers (deterministic from a seed).
- * kinds: text rand rle zero mix longrep blockdup tailmatch straddle edge longlit longmatch period repheavy records sparse copies copies1m tworegime */
+ * kinds: text rand rle zero mix longrep blockdup tailmatch straddle edge longlit longmatch period repheavy records sparse copies copies1m tworegime rawpart */
 #ifndef VGEN_H
 #define VGEN_H
 #include <string.h>
@@ -57,6 +57,15 @@ static void vgen(const char* kind, size_t n, unsigned seed, unsigned char* d) {
         for (i = 0; i < n; ) { size_t seg = (i / 50000) & 1; if (!seg) { const char* x = w[VG_RND % 16]; size_t l = strlen(x), j; if (VG_RND % 5 == 0) { d[i++] = (unsigned char)('a' + VG_RND % 26); continue; } for (j = 0; j < l && i < n; j++) d[i++] = (unsigned char)x[j]; if (i < n) d[i++] = ' '; }
             else { unsigned r = VG_RND | (VG_RND << 15); unsigned char rec[12]; size_t j; rec[0] = 0xF0; rec[1] = 0xF1; rec[2] = (unsigned char)(0x80 + (r & 7)); rec[3] = (unsigned char)(0x90 + ((r >> 3) & 3)); rec[4] = (unsigned char)(0xC0 + ((r >> 8) & 63)); rec[5] = (unsigned char)(0xC0 + ((r >> 14) & 63));
                 rec[6] = (unsigned char)(0xC0 + ((r >> 20) & 63)); rec[7] = 0xFE; rec[8] = 0xFE; rec[9] = (unsigned char)(0xA0 + ((r >> 26) & 15)); rec[10] = 0xFF; rec[11] = 0x00; for (j = 0; j < 12 && i < n; j++) d[i++] = rec[j]; } } }
+    else if (!strcmp(kind, "rawpart")) {       /* per 128 KiB block: an incompressible region carrying sparse 5-byte matches at one offset X (a partition not worth coding),
+                                                  then a copy at the same offset with sparse flips (repeat codes referring to an offset introduced in that region), the next
+                                                  block opening with a run of zeros (repeat offset 1 under the history inherited from the split block) */
+        size_t X = 600 + (seed % 9) * 173, sp = 300 + (seed % 5) * 60, base;
+        for (base = 0; base < n; base += 131072) { size_t e = base + 131072 < n ? base + 131072 : n, rs = base + 60000 + (seed % 4) * 9000, z = base ? base + 3000 + (seed % 7) * 2500 : base, nx;
+            for (i = base; i < e && i < z; i++) d[i] = 0;
+            for (; i < e && i < rs; i++) d[i] = (unsigned char)(VG_RND >> 3);
+            for (i = (z > X ? z : X) + X + 100; i + 8 < rs && i + 8 < e; i += sp + VG_RND % 16) { memcpy(d + i, d + i - X, 5); if (d[i - 1] == d[i - 1 - X]) d[i - 1] ^= 0x55; if (d[i + 5] == d[i + 5 - X]) d[i + 5] ^= 0x55; }
+            nx = rs + 3; for (i = rs; i < e; i++) { d[i] = i >= X ? d[i - X] : 0; if (i == nx) { d[i] ^= (unsigned char)(1 + VG_RND % 3); nx += sp + VG_RND % 16; } } } }
     else if (!strcmp(kind, "sparse")) { memset(d, 0, n); for (i = 0; i < n; i += 1 + VG_RND % 5000) d[i] = (unsigned char)(1 + VG_RND % 255); }
     else if (!strcmp(kind, "mix")) {
         i = 0; while (i < n) { size_t run = 1 + VG_RND % 700; unsigned m = VG_RND % 4; size_t j;
